@@ -7,6 +7,7 @@ use std::time::{Duration, Instant};
 
 mod rng;
 mod t_time_locks;
+mod t_int_encoders;
 
 pub struct Budget {
     pub deadline: Instant,
@@ -28,6 +29,7 @@ pub trait Target {
 fn target(unit: &str) -> Option<Box<dyn Target>> {
     match unit {
         "time_locks" => Some(Box::new(t_time_locks::T)),
+        "int_encoders" => Some(Box::new(t_int_encoders::T)),
         _ => None,
     }
 }
